@@ -249,6 +249,15 @@ var edits = []edit{
 			g.People[0].Extra = append(g.People[0].Extra, "1 OCCU Farrier", "2 DATE 1830")
 		}
 	}},
+	{"sex-corrected-first", func(g *gen.Graph) {
+		if len(g.People) > 0 {
+			if g.People[0].Sex == "M" {
+				g.People[0].Sex = "U"
+			} else {
+				g.People[0].Sex = "M"
+			}
+		}
+	}},
 	{"add-facts-last-person", func(g *gen.Graph) {
 		if len(g.People) > 0 {
 			g.People[len(g.People)-1].Extra = append(g.People[len(g.People)-1].Extra, "1 OCCU Wheelwright", "1 RESI", "2 PLAC Newtown")
@@ -354,12 +363,14 @@ func judge1(k kase, extra *[][2]string) (sig, what string) {
 	}
 	var out *gedcom.Document
 	var err error
+	var firstEngine *q.Engine
 	p, msg, frame := vlib.Try(func() {
 		if k.Entry == "query" {
 			eng, perr := q.NewParser().ParseString("MergeDocumentsAndIndividuals(Document1, Document2)")
 			if perr != nil {
 				panic(perr)
 			}
+			firstEngine = eng
 			var v interface{}
 			v, err = eng.Evaluate([]*gedcom.Document{L, R})
 			if err == nil {
@@ -392,6 +403,18 @@ func judge1(k kase, extra *[][2]string) (sig, what string) {
 				err = fmt.Errorf("after adding an individual (marker MKRLATE1) to the right document and merging again through the query function, the marker occurs %d times in the result:\n%s", n, v.(*gedcom.Document).String())
 			}
 			R.DeleteNode(R.NodeByPointer("LATE1"))
+			// ... and the engine of the first use evaluated again on two OTHER document objects
+			L2, _ := gedcom.NewDocumentFromString(lt)
+			R2, _ := gedcom.NewDocumentFromString(rt)
+			R2.AddIndividual("LATE2", gedcom.NewNameNode("Later /Addition/"), gedcom.NewNode(gedcom.TagNote, "MKRLATE2", ""))
+			v2, e3 := firstEngine.Evaluate([]*gedcom.Document{L2, R2})
+			if e3 != nil {
+				err = fmt.Errorf("the compiled query evaluated a second time on other documents: query error %v", e3)
+				return
+			}
+			if n := strings.Count(v2.(*gedcom.Document).String(), "MKRLATE2"); n != 1 {
+				err = fmt.Errorf("the compiled query evaluated a second time, on two other document objects (the right one with an added individual, marker MKRLATE2): the marker occurs %d times in the result:\n%s", n, v2.(*gedcom.Document).String())
+			}
 		})
 		if p {
 			return "panic:second-merge:" + frame + ":" + vlib.MsgClass(msg), msg
@@ -458,6 +481,19 @@ func judge1(k kase, extra *[][2]string) (sig, what string) {
 			for _, fact := range ind.Nodes() {
 				if !gx.PathCovered(fact, h.Nodes()) {
 					return "fact-lost", fmt.Sprintf("fact %q of %v is not in the output individual @%s@\n%s", fact.GEDCOMLine(1), ms, h.Pointer(), show)
+				}
+				// plain leaf facts (kinds whose equality is the plain tag/value/pointer one) must be there
+				// as written: "represented by an Equals node" is not enough where Equals is the thing at fault
+				if t := fact.Tag().Tag(); len(fact.Nodes()) == 0 && (t == "SEX" || t == "NOTE" || t == "OCCU" || t == "EDUC" || strings.HasPrefix(t, "_M")) {
+					found := false
+					for _, c := range h.Nodes() {
+						if c.Tag().Tag() == t && c.Value() == fact.Value() && c.Pointer() == fact.Pointer() {
+							found = true
+						}
+					}
+					if !found {
+						return "fact-lost:plain-leaf-not-there-as-written", fmt.Sprintf("fact %q of %v is not in the output individual @%s@ as written\n%s", fact.GEDCOMLine(1), ms, h.Pointer(), show)
+					}
 				}
 			}
 		}
@@ -686,7 +722,7 @@ func main() {
 	vlib.Main(&vlib.Check{
 		ID:    "C10",
 		Level: "exploration",
-		Rule: "cases: 7 referentially closed base family graphs with HEAD and TRLR records (single, couple, couple+child, two families sharing a spouse, child who is also a spouse, a family with exact dates throughout, a couple with unique identifiers) x every sequence of <=k edits of the right-hand copy from 16 edits (renumber all/one person/one family, drop first/last person, add a child, rename slightly/completely, birth +1y/+40y, add facts, a family event with spouse ages, family note/event and a second name), plus empty / disjoint / clashing-pointer documents and a record carrying two people's unique identifiers on either side, x {default, strict 0.95, lenient 0.3} x {library call, query function}. " +
+		Rule: "cases: 7 referentially closed base family graphs with HEAD and TRLR records (single, couple, couple+child, two families sharing a spouse, child who is also a spouse, a family with exact dates throughout, a couple with unique identifiers) x every sequence of <=k edits of the right-hand copy from 17 edits (renumber all/one person/one family, drop first/last person, add a child, rename slightly/completely, birth +1y/+40y, add facts, a family event with spouse ages, family note/event and a second name), plus empty / disjoint / clashing-pointer documents and a record carrying two people's unique identifiers on either side, x {default, strict 0.95, lenient 0.3} x {library call, query function}. " +
 			"Non-trivial = both documents non-empty; distinct by (left text, right text, options, entry).",
 		Assumptions: []string{
 			"every individual carries a unique marker NOTE so that the matching chosen by the implementation does not need to be known",
